@@ -27,7 +27,8 @@ EXPLANATION = (
     "yielded only when a filter returned a truthy result, only the identity/hierarchy/unsure filters can return True, "
     "PyNameFilter returns True only under same_pyname, and create_finder installs a PyNameFilter for the queried "
     "binding on every path.  R02.4 (=R01.1): the enclosing-scope lookup chain skips class scopes.  R02.5 (=R15.7): target-name "
-    "collectors never bind the object name of an attribute/subscript target.  That each candidate evaluates to "
+    "collectors never bind the object name of an attribute/subscript target.  R02.6: in every filter list, rejecting-only "
+    "filters precede accepting ones (the first non-None verdict decides).  That each candidate evaluates to "
     "the right binding is otherwise not decided."
 )
 ASSUMPTIONS = ["re alternation is ordered (leftmost position, first alternative wins)",
@@ -221,6 +222,72 @@ def check(ctx, res) -> None:
     from .c15 import load_positions_rule
 
     load_positions_rule(ctx, res, "R02.5")
+
+    # ---- R02.6 filter order
+    filter_order_rule(ctx, res, "R02.6", "rope.refactor.occurrences.create_finder")
+
+
+def filter_order_rule(ctx, res, rule: str, func_qual: str) -> None:
+    """Finder semantics: the first filter returning a non-None verdict decides.  A filter that can only reject (returns
+    False or None) is dead behind a filter that can accept (returns True); so in every filter list rejecting-only
+    filters must come before accepting ones.  Shared by C02 (create_finder) and C20 (find_definition)."""
+    idx = ctx.idx
+    f = idx.need_func(func_qual)
+    occ = "rope.refactor.occurrences"
+
+    def verdicts_of_callable(node) -> Set[str]:
+        out = set()
+        for r in walk_local(node):
+            if isinstance(r, ast.Return) and isinstance(r.value, ast.Constant) and r.value.value in (True, False):
+                out.add("accept" if r.value.value else "reject")
+        return out
+
+    local_defs = {n.name: n for n in ast.walk(f.node) if isinstance(n, ast.FunctionDef) and n is not f.node}
+    local_vars = {}
+    for n in walk_local(f.node):
+        if isinstance(n, ast.Assign) and isinstance(n.targets[0], ast.Name) and isinstance(n.value, ast.Call):
+            local_vars[n.targets[0].id] = n.value
+
+    def classify(e: ast.AST) -> Optional[Set[str]]:
+        if isinstance(e, ast.Name) and e.id in local_defs:
+            return verdicts_of_callable(local_defs[e.id])
+        if isinstance(e, ast.Name) and e.id in local_vars:
+            e = local_vars[e.id]
+        if isinstance(e, ast.Call):
+            q = idx.resolve(f.unit.modname, e.func)
+            if q in idx.classes and "__call__" in idx.classes[q].methods:
+                return verdicts_of_callable(idx.classes[q].methods["__call__"].node)
+        if isinstance(e, ast.Lambda):
+            return {"accept"} if isinstance(e.body, ast.Constant) and e.body.value is True else None
+        return None
+
+    sequences: List[List[ast.AST]] = []
+    for c in calls_in(f.node):
+        if call_name(c) == "Finder":
+            for a in list(c.args) + [k.value for k in c.keywords]:
+                if isinstance(a, ast.List):
+                    sequences.append(list(a.elts))
+    appended = [c.args[0] for c in calls_in(f.node) if isinstance(c.func, ast.Attribute) and c.func.attr == "append"
+                and isinstance(c.func.value, ast.Name) and c.func.value.id == "filters" and c.args]
+    if appended:
+        sequences.append(appended)  # calls_in is sorted by source position = append order on the straight-line path
+    if not sequences:
+        raise AnalysisError(f"anchor={func_qual}: no filter list found")
+    for i, seq_ in enumerate(sequences):
+        kinds = [classify(e) for e in seq_]
+        seen_accept = None
+        bad = None
+        for e, k in zip(seq_, kinds):
+            if k is None:
+                continue
+            if "accept" in k and seen_accept is None:
+                seen_accept = e
+            elif seen_accept is not None and k == {"reject"}:
+                bad = (seen_accept, e)
+        res.add(rule, f"{func_qual.split('.')[-1]}|filters-{i}", bad is None, f.where,
+                "rejecting-only filters precede every accepting filter" if bad is None else
+                f"the rejecting-only filter {ast.unparse(bad[1])} comes after the accepting filter {ast.unparse(bad[0])}: the first non-None verdict "
+                "decides, so occurrences the accepting filter takes are never shown to the rejecting one")
 
 
 def _group_sources(pat: str) -> Dict[str, str]:
